@@ -35,6 +35,8 @@ CONSTANTS Jobs,          \* e.g. 1..3
           SubmitTimes,   \* candidate submit times
           Durs,          \* candidate work durations (0 = never finishes)
           CancelVals,    \* subset of BOOLEAN: may the delegate future be cancelled
+          SubmitDelays,  \* candidate durations of the delegate's own submit() (virtual time spent inside
+                         \* submit_timeout before the returned future exists; 0 = none)
           Horizon,       \* the observer ends the run here
           KeepHist,      \* keep the event history (simulation / replay only)
           Bug            \* "none" or the name of a seeded model bug (negative controls)
@@ -46,12 +48,12 @@ Sub(j) == <<"sub", j>>
 Env(j) == <<"env", j>>
 Threads == {LOOP, OBS} \cup {Sub(j) : j \in Jobs} \cup {Env(j) : j \in Jobs}
 
-VARIABLES cfgT, cfgS, cfgD, cfgC,
+VARIABLES cfgT, cfgS, cfgD, cfgC, cfgSD, sdl,
           pc, jobs, dl, lock, gate, evt, woken, jst, overdue, lpend, wt, wdl, edl, now,
           obs, viol, hist, actor
 
-cfg  == <<cfgT, cfgS, cfgD, cfgC>>
-vars == <<cfgT, cfgS, cfgD, cfgC, pc, jobs, dl, lock, gate, evt, woken, jst, overdue, lpend, wt, wdl, edl, now,
+cfg  == <<cfgT, cfgS, cfgD, cfgC, cfgSD>>
+vars == <<cfgT, cfgS, cfgD, cfgC, cfgSD, sdl, pc, jobs, dl, lock, gate, evt, woken, jst, overdue, lpend, wt, wdl, edl, now,
           obs, viol, hist, actor>>
 
 RECURSIVE Feed(_, _, _)
@@ -68,6 +70,7 @@ Emit(evs) ==
 Init ==
   /\ cfgT \in [Jobs -> TimeoutVals] /\ cfgS \in [Jobs -> SubmitTimes]
   /\ cfgD \in [Jobs -> Durs] /\ cfgC \in [Jobs -> CancelVals]
+  /\ cfgSD \in [Jobs -> SubmitDelays] /\ sdl = [j \in Jobs |-> -1]
   /\ pc = [t \in Threads |-> IF t = LOOP THEN "l_top" ELSE IF t = OBS THEN "o_sleep"
                               ELSE IF t[1] = "sub" THEN "s_sleep" ELSE "e_idle"]
   /\ jobs = <<>> /\ dl = [j \in Jobs |-> 0] /\ lock = "none" /\ gate = NoOne /\ evt = FALSE /\ woken = FALSE
@@ -85,18 +88,36 @@ SSleep(j) ==   \* the client wakes up and calls submit_timeout(); next visible o
   /\ pc' = [pc EXCEPT ![Sub(j)] = "s_gate"]
   /\ Emit(<<E2("SubmitCall", "client", now, j, cfgT[j])>>)
   /\ actor' = Sub(j)
-  /\ UNCHANGED <<cfg, jobs, dl, lock, gate, evt, woken, jst, overdue, lpend, wt, wdl, edl, now>>
+  /\ UNCHANGED <<cfg, sdl, jobs, dl, lock, gate, evt, woken, jst, overdue, lpend, wt, wdl, edl, now>>
 
 G_SGate(j) == pc[Sub(j)] = "s_gate" /\ gate = NoOne
-SGate(j) ==    \* with ensure_alive(): delegate.submit, MapFuture, add_done_callback, deadline = monotonic() + timeout
-  /\ G_SGate(j)
-  /\ gate' = Sub(j)
-  /\ dl' = [dl EXCEPT ![j] = now + cfgT[j]]
+\* the rest of the gate step: the delegate's submit has returned; MapFuture is created, add_done_callback,
+\* deadline = monotonic() + timeout
+Created(j) ==
+  /\ dl' = [dl EXCEPT ![j] = IF Bug = "deadline_first" /\ cfgSD[j] > 0 THEN @ ELSE now + cfgT[j]]
   /\ jst' = [jst EXCEPT ![j] = "pending"]
   /\ edl' = [edl EXCEPT ![j] = IF cfgD[j] > 0 THEN now + cfgD[j] ELSE -1]
   /\ pc' = [pc EXCEPT ![Sub(j)] = "s_lock", ![Env(j)] = IF cfgD[j] > 0 THEN "e_sleep" ELSE "e_never"]
+  /\ Emit(<<E1("FutureCreated", "client", now, j)>>)
+SGate(j) ==    \* with ensure_alive(): delegate.submit ... (which may itself take time, the gate being held)
+  /\ G_SGate(j)
+  /\ gate' = Sub(j)
+  /\ IF cfgSD[j] = 0
+       THEN Created(j) /\ UNCHANGED sdl
+       ELSE /\ sdl' = [sdl EXCEPT ![j] = now + cfgSD[j]]
+            /\ pc' = [pc EXCEPT ![Sub(j)] = "s_dsub"]
+            \* seeded model bug: the deadline is taken before the delegate's submit
+            /\ dl' = [dl EXCEPT ![j] = IF Bug = "deadline_first" THEN now + cfgT[j] ELSE @]
+            /\ UNCHANGED <<jst, edl, obs, viol, hist>>
   /\ actor' = Sub(j)
-  /\ UNCHANGED <<cfg, jobs, lock, evt, woken, overdue, lpend, wt, wdl, now, obs, viol, hist>>
+  /\ UNCHANGED <<cfg, jobs, lock, evt, woken, overdue, lpend, wt, wdl, now>>
+
+G_SDSub(j) == pc[Sub(j)] = "s_dsub" /\ now >= sdl[j]
+SDSub(j) ==    \* the delegate's submit returns
+  /\ G_SDSub(j)
+  /\ Created(j)
+  /\ actor' = Sub(j)
+  /\ UNCHANGED <<cfg, sdl, jobs, lock, gate, evt, woken, overdue, lpend, wt, wdl, now>>
 
 G_SLock(j) == pc[Sub(j)] = "s_lock" /\ lock = "none"
 SLock(j) ==    \* with self._jobs_lock: self._jobs.append(job)
@@ -104,7 +125,7 @@ SLock(j) ==    \* with self._jobs_lock: self._jobs.append(job)
   /\ jobs' = Append(jobs, j)
   /\ pc' = [pc EXCEPT ![Sub(j)] = "s_set"]
   /\ actor' = Sub(j)
-  /\ UNCHANGED <<cfg, dl, lock, gate, evt, woken, jst, overdue, lpend, wt, wdl, edl, now, obs, viol, hist>>
+  /\ UNCHANGED <<cfg, sdl, dl, lock, gate, evt, woken, jst, overdue, lpend, wt, wdl, edl, now, obs, viol, hist>>
 
 G_SSet(j) == pc[Sub(j)] = "s_set"
 SSet(j) ==     \* self._jobs_write.set(); return future
@@ -114,7 +135,7 @@ SSet(j) ==     \* self._jobs_write.set(); return future
   /\ gate' = NoOne
   /\ Emit(<<E1("SubmitRet", "client", now, j)>>)
   /\ actor' = Sub(j)
-  /\ UNCHANGED <<cfg, jobs, dl, lock, jst, overdue, lpend, wt, wdl, edl, now>>
+  /\ UNCHANGED <<cfg, sdl, jobs, dl, lock, jst, overdue, lpend, wt, wdl, edl, now>>
 
 \* ------------------------------------------------------------------ the job loop
 IsOverdue(j) == IF Bug = "early" THEN dl[j] <= now + 1 ELSE dl[j] < now
@@ -158,7 +179,7 @@ LTop ==        \* with _jobs_lock: partition; then cancel overdue jobs
      IN /\ jobs' = (IF Bug = "drop_pending" /\ ov # <<>> THEN <<>> ELSE pend)
         /\ ProcessOverdue(ov, IF Bug = "drop_pending" /\ ov # <<>> THEN <<>> ELSE pend)
   /\ actor' = LOOP
-  /\ UNCHANGED <<cfg, dl, lock, gate, evt, woken, wdl, edl, now>>
+  /\ UNCHANGED <<cfg, sdl, dl, lock, gate, evt, woken, wdl, edl, now>>
 
 G_LCSet == pc[LOOP] = "l_cset"
 LCSet ==       \* the cancelled future's done-callback: self._jobs_write.set(); continue cancelling
@@ -166,7 +187,7 @@ LCSet ==       \* the cancelled future's done-callback: self._jobs_write.set(); 
   /\ evt' = TRUE /\ UNCHANGED woken
   /\ ProcessOverdue(overdue, lpend)
   /\ actor' = LOOP
-  /\ UNCHANGED <<cfg, jobs, dl, lock, gate, wdl, edl, now>>
+  /\ UNCHANGED <<cfg, sdl, jobs, dl, lock, gate, wdl, edl, now>>
 
 G_LEnter == pc[LOOP] = "l_wait"
 LEnter ==      \* event.wait(wait_time): look at the flag; block only if it is clear
@@ -175,7 +196,7 @@ LEnter ==      \* event.wait(wait_time): look at the flag; block only if it is c
             ELSE /\ pc' = [pc EXCEPT ![LOOP] = "l_blocked"]
                  /\ wdl' = IF wt >= 0 THEN now + wt + 1 ELSE -1
   /\ actor' = LOOP
-  /\ UNCHANGED <<cfg, jobs, dl, lock, gate, evt, woken, jst, overdue, lpend, wt, edl, now, obs, viol, hist>>
+  /\ UNCHANGED <<cfg, sdl, jobs, dl, lock, gate, evt, woken, jst, overdue, lpend, wt, edl, now, obs, viol, hist>>
 
 G_LWake == pc[LOOP] = "l_blocked" /\ (woken \/ (wdl >= 0 /\ now >= wdl))
 LWake ==       \* the blocked wait returns (notified by set(), or timed out)
@@ -183,7 +204,7 @@ LWake ==       \* the blocked wait returns (notified by set(), or timed out)
   /\ woken' = FALSE
   /\ pc' = [pc EXCEPT ![LOOP] = "l_clear"]
   /\ actor' = LOOP
-  /\ UNCHANGED <<cfg, jobs, dl, lock, gate, evt, jst, overdue, lpend, wt, wdl, edl, now, obs, viol, hist>>
+  /\ UNCHANGED <<cfg, sdl, jobs, dl, lock, gate, evt, jst, overdue, lpend, wt, wdl, edl, now, obs, viol, hist>>
 
 G_LClear == pc[LOOP] = "l_clear"
 LClear ==      \* event.clear()
@@ -191,7 +212,7 @@ LClear ==      \* event.clear()
   /\ evt' = FALSE
   /\ pc' = [pc EXCEPT ![LOOP] = "l_top"]
   /\ actor' = LOOP
-  /\ UNCHANGED <<cfg, jobs, dl, lock, gate, woken, jst, overdue, lpend, wt, wdl, edl, now, obs, viol, hist>>
+  /\ UNCHANGED <<cfg, sdl, jobs, dl, lock, gate, woken, jst, overdue, lpend, wt, wdl, edl, now, obs, viol, hist>>
 
 \* ------------------------------------------------------------------ the delegate's work
 G_EFinish(j) == pc[Env(j)] = "e_sleep" /\ now >= edl[j]
@@ -204,7 +225,7 @@ EFinish(j) ==  \* work ends: delegate future resolved, outer future resolved by 
        ELSE /\ pc' = [pc EXCEPT ![Env(j)] = "done"]
             /\ UNCHANGED <<jst, obs, viol, hist>>
   /\ actor' = Env(j)
-  /\ UNCHANGED <<cfg, jobs, dl, lock, gate, evt, woken, overdue, lpend, wt, wdl, edl, now>>
+  /\ UNCHANGED <<cfg, sdl, jobs, dl, lock, gate, evt, woken, overdue, lpend, wt, wdl, edl, now>>
 
 G_ESet(j) == pc[Env(j)] = "e_set"
 ESet(j) ==     \* _on_future_done: self._jobs_write.set()
@@ -212,7 +233,7 @@ ESet(j) ==     \* _on_future_done: self._jobs_write.set()
   /\ SetEvent
   /\ pc' = [pc EXCEPT ![Env(j)] = "done"]
   /\ actor' = Env(j)
-  /\ UNCHANGED <<cfg, jobs, dl, lock, gate, jst, overdue, lpend, wt, wdl, edl, now, obs, viol, hist>>
+  /\ UNCHANGED <<cfg, sdl, jobs, dl, lock, gate, jst, overdue, lpend, wt, wdl, edl, now, obs, viol, hist>>
 
 \* ------------------------------------------------------------------ observer
 G_OEnd == pc[OBS] = "o_sleep" /\ now >= Horizon
@@ -221,15 +242,16 @@ OEnd ==
   /\ pc' = [pc EXCEPT ![OBS] = "done"]
   /\ Emit(<<E0("End", "main", now)>>)
   /\ actor' = OBS
-  /\ UNCHANGED <<cfg, jobs, dl, lock, gate, evt, woken, jst, overdue, lpend, wt, wdl, edl, now>>
+  /\ UNCHANGED <<cfg, sdl, jobs, dl, lock, gate, evt, woken, jst, overdue, lpend, wt, wdl, edl, now>>
 
 \* ------------------------------------------------------------------ time
 AnyEnabled ==
-  \/ \E j \in Jobs : G_SSleep(j) \/ G_SGate(j) \/ G_SLock(j) \/ G_SSet(j) \/ G_EFinish(j) \/ G_ESet(j)
+  \/ \E j \in Jobs : G_SSleep(j) \/ G_SGate(j) \/ G_SDSub(j) \/ G_SLock(j) \/ G_SSet(j) \/ G_EFinish(j) \/ G_ESet(j)
   \/ G_LTop \/ G_LCSet \/ G_LEnter \/ G_LWake \/ G_LClear \/ G_OEnd
 
 Deadlines ==
   {cfgS[j] : j \in {x \in Jobs : pc[Sub(x)] = "s_sleep"}}
+  \cup {sdl[j] : j \in {x \in Jobs : pc[Sub(x)] = "s_dsub"}}
   \cup {edl[j] : j \in {x \in Jobs : pc[Env(x)] = "e_sleep"}}
   \cup (IF pc[LOOP] = "l_blocked" /\ wdl >= 0 THEN {wdl} ELSE {})
   \cup (IF pc[OBS] = "o_sleep" THEN {Horizon} ELSE {})
@@ -238,10 +260,10 @@ Tick ==
   /\ ~AnyEnabled /\ Deadlines # {}
   /\ now' = CHOOSE d \in Deadlines : \A x \in Deadlines : d <= x
   /\ actor' = <<"tick", 0>>
-  /\ UNCHANGED <<cfg, pc, jobs, dl, lock, gate, evt, woken, jst, overdue, lpend, wt, wdl, edl, obs, viol, hist>>
+  /\ UNCHANGED <<cfg, sdl, pc, jobs, dl, lock, gate, evt, woken, jst, overdue, lpend, wt, wdl, edl, obs, viol, hist>>
 
 Next ==
-  \/ \E j \in Jobs : SSleep(j) \/ SGate(j) \/ SLock(j) \/ SSet(j) \/ EFinish(j) \/ ESet(j)
+  \/ \E j \in Jobs : SSleep(j) \/ SGate(j) \/ SDSub(j) \/ SLock(j) \/ SSet(j) \/ EFinish(j) \/ ESet(j)
   \/ LTop \/ LCSet \/ LEnter \/ LWake \/ LClear \/ OEnd \/ Tick
 
 Spec == Init /\ [][Next]_vars
@@ -257,5 +279,5 @@ NoTimerlessSleepWithWork ==
 NoJobLost ==
   \A j \in Jobs : (jst[j] = "pending" /\ pc[Sub(j)] = "done" /\ Get(obs.att, j, 0) = 0) =>
       (\E i \in DOMAIN jobs : jobs[i] = j) \/ (\E i \in DOMAIN overdue : overdue[i] = j)
-View == <<cfg, pc, jobs, dl, lock, gate, evt, woken, jst, overdue, lpend, wt, wdl, edl, now, obs, viol>>
+View == <<cfg, sdl, pc, jobs, dl, lock, gate, evt, woken, jst, overdue, lpend, wt, wdl, edl, now, obs, viol>>
 =============================================================================
